@@ -186,6 +186,17 @@ MovesUnionH(h, kn) ==
         ELSE pre(h[lc], lc) \o pre(h[rc], rc)
              \o <<MUnion(lc, rc, FALSE), MUnion(lc, rc, TRUE)>>
 
+(* the right operand of a union is itself a self-join (of the right table with its alias), projected back to the common columns *)
+MovesUnionJ(h, kn) ==
+    LET n == Len(h) IN
+    CASE n = 2 -> <<MAlias(2, "z", FALSE)>>
+      [] n = 3 -> LET a2 == ColOf(h[2], "a") a3 == ColOf(h[3], "a") IN
+                  IF a2 # <<>> /\ a3 # <<>> THEN <<MJoin(2, 3, <<Fn2("eq", Col(a2[1]), Col(a3[1]))>>, "inner", "_z"),
+                                                     MJoin(2, 3, <<Fn2("eq", Col(a2[1]), Col(a3[1]))>>, "left", "_z")>> ELSE <<>>
+      [] n = 4 -> <<MSelect(4, [i \in DOMAIN h[2].vis |-> Col(h[2].vis[i])])>>
+      [] n = 5 -> <<MUnion(1, 5, FALSE), MUnion(1, 5, TRUE), MUnion(5, 1, FALSE)>>
+      [] OTHER -> <<>>
+
 (* an ordered / sliced / aliased operand of a union (the subquery rules of union; the alias() may sit on either side) *)
 MovesUnionS(h, kn) ==
     LET lc == LCur(h)
